@@ -33,20 +33,22 @@ func VerifConnCounts(c *Conn) (tags, fids int) {
 func VerifReqConnMsize(r *SrvReq) (uint32, bool) { return r.Conn.Msize, r.Conn.Dotu }
 
 var verifMu sync.RWMutex
-var verifHook func(point string, a, b uint32)
+var verifHook func(point string, obj interface{}, a, b uint32)
 
 // VerifSetHook installs (or, with nil, removes) the callback run at schedule points.
-func VerifSetHook(f func(point string, a, b uint32)) {
+func VerifSetHook(f func(point string, obj interface{}, a, b uint32)) {
 	verifMu.Lock()
 	verifHook = f
 	verifMu.Unlock()
 }
 
-func verifPoint(point string, a, b uint32) {
+// verifPoint is called at the schedule points of the library; obj is the *Conn,
+// *SrvReq or *Clnt the point belongs to.
+func verifPoint(point string, obj interface{}, a, b uint32) {
 	verifMu.RLock()
 	f := verifHook
 	verifMu.RUnlock()
 	if f != nil {
-		f(point, a, b)
+		f(point, obj, a, b)
 	}
 }
